@@ -170,7 +170,9 @@ def write_ev(pid, spec, tier, seed, results, obligations, violations, known_hits
             "violations": len(r.violations()),
             "stats": r.stats,
         }
-        for o in r.obligations[:3]:
+        for o in r.obligations[:2]:
+            samples.append(o.as_dict())
+        for o in [x for x in r.obligations if x.status == "justified"][:3]:
             samples.append(o.as_dict())
     for o in violations[:10]:
         samples.append(o.as_dict())
